@@ -1,4 +1,5 @@
 import NomtModel.Store.ExtRangeToy
+import NomtModel.Store.ExtRangeLaws
 /-!
 # C01 — the multi-worker stage produces the sequential content; the two seeded one-line changes do not
 
@@ -51,6 +52,51 @@ theorem T1_seeded_single_merge_stage_counterexample :
       some ([[10, 20, 21, 22], [23, 30, 31, 32]], [Pn.old 1, Pn.old 2, Pn.old 3]) ∧
     Toy.specKeys Toy.lvlB Toy.csB = [10, 20, 21, 22, 23, 30, 31, 32] := by
   refine ⟨?_, ?_, ?_⟩ <;> decide +kernel
+
+/-- the entries of the level the stage leaves, left to right -/
+def levelEntries {N V : Type} (items : N → List (Nat × V)) (lvl : List (OutN N)) : List (Nat × V) :=
+  lvl.flatMap fun o => match o with | .old d => items d.node | .new _ nd _ => items nd
+
+/-- the sequential specification: every change replaces / removes / adds the entry of its key -/
+def specEntries {C V : Type} (put : Nat → C → Option (Nat × V)) (old : List (Nat × V)) (cs : List (Nat × C)) :
+    List (Nat × V) :=
+  cs.foldl (fun acc c => acc.filter (fun e => e.1 != c.1) ++ (put c.1 c.2).toList) old
+
+/-- FULL statement wanted — `T1_multiworker_content` (NOT proved): for every updater that satisfies `UpdLaws`, every
+well-formed level, ascending change list, worker count, EVERY complete schedule and every completion order of the workers:
+the stage does not panic in `filter_*_changeset`, the entries of the new level are a permutation of the sequential
+specification, and the separators of the new level ascend with every node's keys between its separator and the next.
+`T13_result_schedule_independent` / `T13_worker_count_independent` at content level are corollaries (the right-hand side
+mentions neither the schedule nor the worker count).
+
+What IS proved towards it, for every schedule: the protocol layer (`T13_protocol_invariant_every_schedule`,
+`T13_no_deadlock`, `T16_ranges_adjacent_every_schedule`), the phase structure (`T13_no_extension_in_scope_loop_every_schedule`),
+the key order of the trackers (`T13_tracker_keys_ascend_every_schedule`: no produced node is overwritten), the stability of
+answers (`T13_answer_stable`) and the conservation of entries by a hand-over (`T19_answer_conserves_entries`,
+`T19_pending_base_page_freed_once`).  What is MISSING (each needs the order of the separators against the ranges, i.e. an
+invariant of the size of the one-worker `RS` invariant of `Store/BranchUpdRun.lean`, for all workers at once):
+(1) `reset_*_base_fresh(key)` of worker `i` only ever deletes a node whose separator lies in `[range.low, range.high)` of `i`
+at that moment, and not twice — so every base is consumed by exactly one worker (`T19_multiworker_freed_once`);
+(2) when a change is ingested the node that holds its key is the current base of that updater (the ops of a worker stay
+inside its initial range: proved; the base chain is contiguous: not proved);
+(3) `inner.extend(response.changed)` never meets an equal key (the received separators are `≥` the requester's old
+`range.high`, its own are below);
+(4) the laws themselves for `LeafUpdater` / `BranchUpdater`: they hold on the states `run_worker` reaches (ascending keys
+ingested in scope), not on all states — `UpdLaws` has to be relativised to a well-formedness predicate of the updater state
+that the existing one-worker invariants (`LeafUpd.Inv`, `BranchUpd.RS`) provide per run, not per call. -/
+def MultiworkerContent {σ N C V : Type} (U : Upd σ N C) (items : N → List (Nat × V))
+    (put : Nat → C → Option (Nat × V)) (look : List (DbN N) → Nat → Option Nat) : Prop :=
+  ∀ (cfg : Cfg), cfg.staleHigh = false → cfg.singleMerge = false → cfg.highMax = false →
+  ∀ (db : List (DbN N)) (cs : List (Nat × C)) (count : Nat) (s order : List Nat) (g : G σ N C),
+    (db.map (·.sep)).Pairwise (· < ·) →
+    (∀ d ∈ db, ((items d.node).map (·.1)).Pairwise (· < ·) ∧ ∀ e ∈ items d.node, d.sep ≤ e.1) →
+    (cs.map (·.1)).Pairwise (· < ·) → cs ≠ [] →
+    runSched U cfg db s (initG U cfg db cs (prepareWorkers (look db) (cs.map (·.1)) count)) = .inr g →
+    allDone g = true → order.Perm (List.range g.n) →
+    ∃ changes freed, assemble cfg g order = some (changes, freed) ∧
+      (levelEntries items (applyCs (db.map OutN.old) changes)).Perm
+        (specEntries put (db.flatMap fun d => items d.node) cs) ∧
+      ((applyCs (db.map OutN.old) changes).map OutN.sep).Pairwise (· < ·)
 
 /-! ## non-vacuity -/
 
